@@ -343,6 +343,31 @@ pub fn run(run: &Run) {
             }
         }
     });
+    // a descent of one or two ulps anywhere in the abscissae is still unsorted
+    for base in [vec![0.5, 1.3, 2.9, 7.7], vec![-1e6, -3.0, 1e-3, 2.0, 5e8], (0..40).map(|i| 0.1 * i as f64 + 1.0).collect::<Vec<f64>>(), vec![1e-300, 2e-300, 5e-300], vec![1e300, 2e300, 4e300]] {
+        let n = base.len();
+        let y: Vec<f64> = (0..n + 1).map(|i| i as f64).collect();
+        for pos in 1..n {
+            for ulps in [1u64, 2, 5] {
+                let mut x = base.clone();
+                // insert a knot that lies `ulps` below its left neighbour
+                let left = x[pos - 1];
+                let lower = f64::from_bits(if left > 0.0 { left.to_bits() - ulps } else { left.to_bits() + ulps });
+                x.insert(pos, lower);
+                for m in 0..3 {
+                    run.case();
+                    run.tr();
+                    run.ok();
+                    run.nontrivial(1);
+                    let t = [0.5 * (base[0] + base[1])];
+                    match call(true, &x, &y, &t, m) {
+                        Ok(v) => run.violate("checked/unsorted-accepted", || format!("abscissae {:?} (knot {} lies {} ulp below knot {}) accepted in mode {}: {:?}", x, pos, ulps, pos - 1, MODES[m], v)),
+                        Err(_) => run.regime("checked: ulp-sized descent rejected"),
+                    }
+                }
+            }
+        }
+    }
     // fill values that are themselves infinite or NaN (log-density tables filled with -inf): the fill mode returns
     // the left or the right one, as it is
     for (fl, fr) in [(f64::NEG_INFINITY, f64::NEG_INFINITY), (f64::NAN, 0.0), (1.0, f64::INFINITY), (f64::INFINITY, -2.5), (0.0, f64::NAN), (f64::NAN, f64::NAN)] {
